@@ -22,6 +22,7 @@ def main():
         if v not in variants:
             root, crate, info = overlay.build(**registry.VARIANTS[v])
             variants[v] = (root, crate)
+            kani.register_overlay(v, crate)
     logs = os.path.join(overlay.VERIF, "build", "logs", "runall"); os.makedirs(logs, exist_ok=True)
     sched = runner.MemSched(float(os.environ.get("VERIF_MEM_GB", "50")), par)
     out = {}
